@@ -111,6 +111,10 @@ func execRules(c *Ctx, full bool) {
 	}
 	c.Rule("R09n", ruleTextDirRestored, 1)
 	checkDirRestored(c, "R09n")
+	c.Rule("R09q", ruleTextPragmaRecognised, 4)
+	checkPragmaRecognised(c, "R09q")
+	c.Rule("R09r", ruleTextStateConsumed, 1)
+	checkStateConsumed(c, "R09r")
 	c.Rule("R09p", ruleTextNotFoundOnly, 2)
 	checkNotFoundOnly(c, "R09p")
 	c.Rule("R09o", ruleTextLastCheckpoint, 1)
@@ -792,6 +796,10 @@ func checkExecLoop(c *Ctx) {
 func runC12(c *Ctx) {
 	c.Rule("R12e", "the hashes of the applied statements are owned by Execute: Revision.PartialHashes, Applied and Total are stored only in Executor.Execute (and the revision constructor): no other function clears or rewrites them behind its back", 2)
 	checkFieldOwners(c, "R12e", pMigrate, "Revision", []string{"PartialHashes", "Applied", "Total"}, map[string]bool{"migrate.(Executor).Execute": true})
+	c.Rule("R12i", ruleTextDirRestored, 1)
+	checkDirRestored(c, "R12i")
+	c.Rule("R12j", ruleTextHashLiteralText, 1)
+	checkHashLiteralText(c, "R12j")
 	c.Rule("R12h", ruleTextBothIndexesGuarded, 2)
 	checkBothIndexesGuarded(c, "R12h")
 	c.Rule("R12g", ruleTextOptionalStmt, 1)
